@@ -38,7 +38,7 @@ PROPS = {
         "trusted_base": [KERNEL, EXTRACT, HARNESSTB, GEN,
                          "modelled, not verified: Go filepath.Clean (Model/Flist.v path_clean), Go string comparison / sort.Slice (bytewise order, insertion sort in the model, uniqueness of the sorted order proved), os.FileMode -> S_IF* mapping (observed through lstat in the harness)"],
         "assumptions": [
-            "flist theorems assume clean names shorter than PATH_MAX, int32/int64 field ranges, and that untransmitted fields carry their zero value (entry_ok); writer and reader agree on the rdev field (devices = specials, the protocol-27 meaning of -D)",
+            "flist theorems assume clean names shorter than PATH_MAX, int32/int64 field ranges, and that untransmitted fields carry their zero value (entry_ok)",
             "the daemon / remote-shell handshake strings are covered by the session-level properties (C07/C08/C19 harness legs), not by a theorem here",
             "tridge rsync 3.2.7 is used as an independent protocol-27 sender when the binary is present (skipped and recorded otherwise)",
         ],
